@@ -85,3 +85,51 @@ pub fn outcome(macro_name: &str, attr: &str, item: &str) -> Result<Outcome, Stri
         }
     })
 }
+
+/// Expand the invocations the macro emitted itself (`#[::entrait::entrait(..)]` on the leaf trait of a concrete-dependency fn)
+/// the way rustc would next: `::entrait::entrait` is the `_unimock` variant in a crate graph with the `unimock` feature.
+/// Returns the token stream with every such trait replaced by its expansion, and how many nested invocations were expanded.
+pub fn deep_expand(ts: TokenStream, feature_unimock: bool) -> Result<(TokenStream, usize), String> {
+    use quote::ToTokens;
+    let file: syn::File = syn::parse2(ts).map_err(|e| format!("expansion does not parse as items: {e}"))?;
+    let variant = if feature_unimock { "entrait_unimock" } else { "entrait" };
+    fn is_nested(a: &syn::Attribute) -> bool {
+        let p = a.path();
+        p.leading_colon.is_some() && p.segments.len() == 2 && p.segments[0].ident == "entrait" && p.segments[1].ident == "entrait"
+    }
+    fn rec(items: Vec<syn::Item>, variant: &str, n: &mut usize, depth: usize) -> Result<TokenStream, String> {
+        let mut out = TokenStream::new();
+        for it in items {
+            match it {
+                syn::Item::Trait(mut tr) if tr.attrs.iter().any(is_nested) && depth < 4 => {
+                    let pos = tr.attrs.iter().position(is_nested).unwrap();
+                    let attr = tr.attrs.remove(pos);
+                    let args = match &attr.meta {
+                        syn::Meta::List(l) => l.tokens.clone(),
+                        _ => TokenStream::new(),
+                    };
+                    *n += 1;
+                    match expand_ts(variant, args, tr.to_token_stream()) {
+                        Expansion::Tokens(inner) => {
+                            let f: syn::File = syn::parse2(inner).map_err(|e| format!("nested expansion does not parse as items: {e}"))?;
+                            out.extend(rec(f.items, variant, n, depth + 1)?);
+                        }
+                        Expansion::Panic(m) => return Err(format!("nested expansion panicked: {m}")),
+                    }
+                }
+                syn::Item::Mod(mut m) if m.content.is_some() => {
+                    let (brace, inner) = m.content.take().unwrap();
+                    let inner_ts = rec(inner, variant, n, depth)?;
+                    let f: syn::File = syn::parse2(inner_ts).map_err(|e| format!("module body does not re-parse: {e}"))?;
+                    m.content = Some((brace, f.items));
+                    m.to_tokens(&mut out);
+                }
+                other => other.to_tokens(&mut out),
+            }
+        }
+        Ok(out)
+    }
+    let mut n = 0;
+    let out = rec(file.items, variant, &mut n, 0)?;
+    Ok((out, n))
+}
